@@ -245,6 +245,7 @@ class Recorder:
                 return orig_call(self_, x, record_duplicate_data)
             n0 = rec.ncall
             u = _l(x)
+            xn0 = int(self_.Xn)
             try:
                 r = orig_call(self_, x, record_duplicate_data)
             except BaseException as ex:
@@ -254,6 +255,7 @@ class Recorder:
                 raise
             if rec.ncall > n0:
                 rec.calls[-1].update(u=u, record=bool(record_duplicate_data), fc_after=int(self_.func_count),
+                                     newrow=int(self_.Xn) > xn0,
                                      ret=[_f(r[0]), _f(r[1]), None if r[2] is None else int(r[2])])
             rec.ev.append(["call", rec.phase, rec.ncall])
             return r
